@@ -79,6 +79,20 @@ for k, f in [("self.append_witness", c_append_witness), ("self.append_constant",
     CONTRACTS[k] = f
 
 
+def c_range_check_call(it, recv, a):
+    """call-site contract of Composer::range_check(v, nb): for a concrete EVEN width it is, by range_check's own contract (units
+    range.range_check[bits=..]), exactly range_check_even(v, nb) - one normal form for both spellings, so an entry point that dispatches on
+    the parity itself is the same component"""
+    if len(a) == 2 and isinstance(a[1], int) and a[1] % 2 == 0:
+        ev(it, "range_check_even", a[0], a[1])
+    else:
+        ev(it, "range_check", *a)
+    return UNIT
+
+
+CONTRACTS["self.range_check"] = c_range_check_call
+
+
 def c_decomposition(it, recv, a):
     n = it.consts.get("__decomposition_n")
     ev(it, "component_decomposition", n, a[0])
@@ -697,7 +711,7 @@ for nb_ in (tuple(range(0, 257)) if _THOROUGH else (0, 1, 2, 3, 9, 64, 253, 254,
 def c_entry(kind, n):
     def c(it, recv, a):
         if kind == "bits":
-            ev(it, "range_check", a[0], n)
+            c_range_check_call(it, recv, [a[0], n])
         else:
             ev(it, "range_check_even", a[0], min(2 * n, 256))
         return UNIT
